@@ -94,9 +94,18 @@ impl C04 {
         let w = match api::parse_word(text) { Ok(Ok(w)) => w, _ => return Outcome::skip("word does not parse") };
         let mw = MWord::from_asca(&w);
         let mut fired = 0; let mut skipped_after_partial = false; let mut partial = false;
+        // a repeated alpha: asca evaluates the arguments of a matrix in feature order, the first use (in that order) binds, later uses compare (an inverted use compares with the opposite value);
+        // a feature of an absent sub-node matches no value, bound or not
+        let mut ordered = inp.clone(); ordered.sort_by_key(|(_, f)| *f);
+        let repeated = { let mut names: Vec<&str> = inp.iter().filter(|(sg, _)| sg != "+" && sg != "-").map(|(sg, _)| sg.trim_start_matches('-')).collect(); names.sort(); names.windows(2).any(|p| p[0] == p[1]) };
+        // (an inverted first use would bind the opposite value: not generated — the first use of every alpha in feature order must be plain)
+        if repeated { let mut seen: Vec<&str> = vec![]; for (sg, _) in &ordered { if sg == "+" || sg == "-" { continue } let n = sg.trim_start_matches('-'); if !seen.contains(&n) { if sg.starts_with('-') { return Outcome::skip("inverted first use of an alpha") } seen.push(n); } } }
         let expect = map_segs(&mw, |s| {
             let mut bind: std::collections::HashMap<&str, bool> = Default::default();
-            for (sg, f) in &inp { match sg.as_str() { "+" => if !s.matches(*f, true) { return *s }, "-" => if !s.matches(*f, false) { return *s }, a => match s.feat(*f) { Some(v) => { bind.insert(a, v); } None => return *s } } }
+            for (sg, f) in &ordered { match sg.as_str() { "+" => if !s.matches(*f, true) { return *s }, "-" => if !s.matches(*f, false) { return *s }, a => {
+                let (inv, name) = match a.strip_prefix('-') { Some(n) => (true, n), None => (false, a) };
+                match (s.feat(*f), bind.get(name).copied()) { (None, _) => return *s, (Some(v), None) => { bind.insert(name, v != inv); } (Some(v), Some(b)) => if v != (b != inv) { return *s } }
+            } } }
             let mut r = *s;
             for (sg, g) in &out { match sg.as_str() { "+" => r.set_feat(*g, true), "-" => r.set_feat(*g, false), a => { let (inv, name) = match a.strip_prefix('-') { Some(n) => (true, n), None => (false, a) }; if let Some(v) = bind.get(name) { r.set_feat(*g, *v != inv) } } } }
             r
@@ -104,7 +113,7 @@ impl C04 {
         // non-trivial: some segment matches after an earlier segment bound an alpha and then failed a later argument
         for s in mw.flat() {
             let mut bound = false; let mut ok = true;
-            for (sg, f) in &inp { match sg.as_str() { "+" => if !s.matches(*f, true) { ok = false; break }, "-" => if !s.matches(*f, false) { ok = false; break }, _ => match s.feat(*f) { Some(_) => bound = true, None => { ok = false; break } } } }
+            for (sg, f) in &ordered { match sg.as_str() { "+" => if !s.matches(*f, true) { ok = false; break }, "-" => if !s.matches(*f, false) { ok = false; break }, _ => match s.feat(*f) { Some(_) => bound = true, None => { ok = false; break } } } }
             if ok { fired += 1; if partial { skipped_after_partial = true; } } else if bound { partial = true; }
         }
         match api::apply_rules(&[rule.clone()], &w) {
@@ -158,7 +167,8 @@ impl Property for C04 {
             let n_in = 2 + t.pick(3);
             for k in 0..n_in {
                 let f = t.pick(26); if used.contains(&f) { continue } used.push(f);
-                if (k == 0 || t.chance(1, 3)) && alphas.len() < 2 { let a = ["α", "β"][alphas.len()]; alphas.push(a); inp.push((a.to_string(), f)); }
+                if !alphas.is_empty() && t.chance(1, 4) { let a = alphas[t.pick(alphas.len())]; inp.push((if t.chance(1, 3) { format!("-{a}") } else { a.to_string() }, f)); }   // a second, comparing use of a bound alpha
+                else if (k == 0 || t.chance(1, 3)) && alphas.len() < 2 { let a = ["α", "β"][alphas.len()]; alphas.push(a); inp.push((a.to_string(), f)); }
                 else { let b = match tgt.feat(f) { Some(v) if t.chance(4, 5) => v, _ => t.chance(1, 2) }; inp.push(((if b { "+" } else { "-" }).to_string(), f)); }
             }
             let mut out: Vec<(String, usize)> = vec![]; let mut used_o: Vec<usize> = vec![];
